@@ -472,7 +472,7 @@ func genCase(t *rapid.T) (Case, error) {
 		g.mark("decoy:subdir")
 	}
 	sort.Slice(c.Files, func(i, j int) bool { return c.Files[i].Name < c.Files[j].Name })
-	c.Compile = rapid.IntRange(0, 7).Draw(t, "compile") == 0
+	c.Compile = rapid.IntRange(0, 39).Draw(t, "compile") == 0
 	for f := range g.feat {
 		c.Feat = append(c.Feat, f)
 	}
